@@ -1,6 +1,8 @@
 import Driver.Proto
+import Driver.Ops.Write
 import ZipVerif.Model.Reader
-/- Ops `read.*`: seekable and streaming reader over a byte string. -/
+import ZipVerif.Model.Writer
+/- Ops `read.*`: seekable and streaming reader over a byte string, and `new_append` on the same bytes. -/
 
 namespace Driver
 open ZipVerif ZipVerif.Model
@@ -110,12 +112,37 @@ def readStream (bytes : Bytes) (ext : Ext) : String :=
       s!" | meta name={toHex f.fileName} raw={toHex f.fileNameRaw} mode={showOpt f.unixMode} comment={toHex f.fileComment}"
     s!"visit=ok files={files.length} metas={metas.length}" ++ String.join fs ++ String.join ms
 
+/-- `read.append`: `ZipWriter::new_append(bytes)` → `append=<class>` | `append=ok n=<entries>
+ds=<directory start>` + the outcome of `finish()`: `fin=<class>` | `fin=ok final=crc:<crc32>:<len>`;
+`fin=skipped` (hard guard, unreachable since the D16 fix) when the directory start lies more than
+1 MiB beyond the input (finish would zero-fill up to it: neither side executes that). The device position after `newAppend` is the directory start. -/
+def readAppend (bytes : Bytes) : String :=
+  let cls (e : ZErr) : String := (Out.className e).replace " " ":"
+  match newAppend.runPure (Dev.ofBytes bytes) with
+  | (.err e, _) => "append=" ++ cls e
+  | (.panic s, _) => "append=panic:" ++ s
+  | (.ok s, d) =>
+    let head := s!"append=ok n={s.files.length} ds={d.pos}"
+    if d.pos > bytes.length + 1048576 then head ++ " fin=skipped" else
+    match (finish (mkWExt [] []) s).runPure d with
+    | (.ok (.ok (), _), d') =>
+      head ++ s!" fin=ok final=crc:{(Spec.Crc32.crc32 d'.buf).toNat}:{d'.buf.length}"
+    | (.ok (.error e, _), _) => head ++ " fin=" ++ cls e
+    | (.err e, _) => head ++ " fin=" ++ cls e
+    | (.panic _, _) => head ++ " fin=panic"
+
+/-- `read.mem`: `ZipArchive::new(bytes)` only. -/
+def readMem (bytes : Bytes) : String :=
+  match openArchive.runPure (Dev.ofBytes bytes) with
+  | (.err e, _) => "open=" ++ (Out.className e).replace " " ":"
+  | (.panic s, _) => "open=panic:" ++ s
+  | (.ok a, _) => s!"open=ok n={a.files.length}"
 def readStreamC (bytes : Bytes) (ext : Ext) (pattern : List Nat) : String :=
   match (streamEntriesC ext pattern (bytes.length / 30 + 1) 0).runPure (Dev.ofBytes bytes) with
   | (.err e, _) => "end=" ++ (Out.className e).replace " " ":"
   | (.panic s, _) => "end=panic:" ++ s
   | (.ok files, _) =>
-    let fs := files.map fun (f, res) => s!" | {toHex f.fileName} m={f.method.toU16.toNat} got={showOutBytes res}"
+    let fs := files.map fun (f, res) => s!" | {showMeta f} got={showOutBytes res}"
     s!"end=ok files={files.length}" ++ String.join fs
 
 def opRead (op : String) (a : Args) : Option String := do
@@ -128,6 +155,8 @@ def opRead (op : String) (a : Args) : Option String := do
       | none => none
     some (readSeek bytes pw ext)
   | "read.stream" => some (readStream bytes ext)
+  | "read.append" => some (readAppend bytes)
+  | "read.mem" => some (readMem bytes)
   | "read.streamc" =>
     let pat ← (a.get? "consume").bind natList?
     some (readStreamC bytes ext (if pat.isEmpty then [0] else pat))
